@@ -231,6 +231,65 @@ theorem System_app (s : SysState) (r : Request) (img : Bytes) (h : systemDump s 
   subst hi
   exact ⟨d, hd, m1, m2, l1, l2⟩
 
+/-- **The window around the crash instruction pointer (C07, end to end).** With a crash context whose blamed thread is
+    attached and whose instruction pointer lies in a mapping `m` of readable pages (the first mapping in list order that
+    contains it): the memory list's blocks contain a region that starts at `max m.start (ip − 128)`, ends at
+    `min (m.start + m.size) (ip + 128)`, sits right behind the blamed thread's stack in the image and holds the
+    target's bytes. -/
+theorem System_window (s : SysState) (r : Request) (img : Bytes) (h : systemDump s r = .ok img)
+    (ci : CrashInfo) (c : CrashIn) (hc : r.crash = some (ci, c))
+    (k : Nat) (t : TInfo) (hk : s.threads[k]? = some t) (hb : t.tid = r.blamed)
+    (m : Mapping) (hm : s.ms.find? (fun m => !(decide (c.ip < m.start) || decide (c.ip ≥ m.start + m.size))) = some m)
+    (hrd : s.mem.allReadable m.start m.size = true) :
+    ∃ d dt lo b, gatherDump s r = .ok d ∧ d.threads[k]? = some dt ∧ dt.window = some (lo, b) ∧
+      lo = max m.start (c.ip - 128) ∧ lo + b.length = min (m.start + m.size) (c.ip + 128) ∧
+      b = s.mem.bytes lo b.length ∧
+      (⟨lo, b.length, threadPos d k + dt.stackLen⟩ : Desc) ∈ (acc3 d).blocks ∧
+      At img (threadPos d k + dt.stackLen) b := by
+  obtain ⟨d, hd, hi⟩ := systemDump_ok s r img h
+  obtain ⟨hth, _⟩ := gatherDump_ok s r d hd
+  obtain ⟨_, _, hget⟩ := E2E_threads _ _ _ _ _ _ _ hth
+  obtain ⟨dt, hdk, hgt⟩ := hget k t hk
+  have hcm : r.crash.map (·.2) = some c := by rw [hc]; rfl
+  rw [hcm] at hgt
+  obtain ⟨_, _, _, _, _, hw⟩ := E2E_crash_thread _ _ c r.blamed _ _ _ t dt hb hgt
+  have hp := List.find?_some hm
+  simp only [Bool.not_eq_true', Bool.or_eq_false_iff, decide_eq_false_iff_not, Nat.not_lt, ge_iff_le, Nat.not_le] at hp
+  have hwin : ipWindow s.ms c.ip = some (max m.start (c.ip - 128), min (m.start + m.size) (c.ip + 128) - max m.start (c.ip - 128)) := by
+    unfold ipWindow
+    rw [hm]
+    simp [ipWindow.Src_ipHalf]
+  have hreader := copy_reads_exactly_in s.mem s.ms s.page m.start m.size hrd
+  have hin : ∀ a n, ipWindow (⟨s.ms, s.page, copyFromProcess s.mem⟩ : GEnv).ms c.ip = some (a, n) → m.start ≤ a ∧ a + n ≤ m.start + m.size := by
+    intro a n ha
+    simp only at ha
+    rw [hwin] at ha
+    injection ha with ha; injection ha with h1 h2
+    omega
+  cases hdw : dt.window with
+  | none =>
+    rw [hdw] at hw
+    unfold gatherWindow at hw
+    simp only at hw
+    rw [hwin] at hw
+    simp only at hw
+    -- the read succeeds: the window lies in readable memory and is not empty
+    have hlen : 0 < min (m.start + m.size) (c.ip + 128) - max m.start (c.ip - 128) := by omega
+    rw [copy_readable s.mem _ _ hlen (allReadable_sub s.mem m.start m.size _ _ hrd (by omega) (by omega))] at hw
+    cases hw
+  | some w =>
+    obtain ⟨lo, b⟩ := w
+    rw [hdw] at hw
+    obtain ⟨h1, h2⟩ := gatherWindow_spec_in ⟨s.ms, s.page, copyFromProcess s.mem⟩ s.mem.byte c.ip lo m.start (m.start + m.size) b hreader hin hw
+    simp only at h1
+    rw [hwin] at h1
+    injection h1 with h1; injection h1 with e1 e2
+    have hblk := (Image_thread_block d k dt hdk).2 lo b hdw
+    subst hi
+    refine ⟨d, dt, lo, b, hd, hdk, hdw, e1.symm, by omega, ?_, hblk.1, hblk.2⟩
+    rw [h2]
+    simp [TMem.bytes]
+
 /-- a one-thread target: a guard page below a one-page stack mapping of readable memory -/
 def sysExample : SysState where
   numWriters := 18
